@@ -536,6 +536,87 @@ class Case final : public sim::CaseBase {
         return;
       }
     }
+    CheckPredictedRefusal();
+  }
+
+  // One coroutine, one executor that refuses every submission from its k-th on: the coroutine is then the only submitter
+  // to that executor, so which of its hops is refused follows from the script alone. That hop must end the coroutine
+  // (StopError); a coroutine that runs on has not asked the executor it named.
+  void CheckPredictedRefusal() {
+    if (sim::Failed() || scripts.size() != 1 || reject_ex < 0) {
+      return;
+    }
+    const Script& sc = scripts[0];
+    int cur_exec = -1;
+    bool exec_known = true;
+    int submitted = 0;
+    int refused_at = -1;
+    for (std::size_t i = 0; i < sc.ops.size() && refused_at < 0; ++i) {
+      const Op& op = sc.ops[i];
+      int target = -2;  // -2: this op submits nothing to a proxy
+      bool stop = false;
+      switch (op.kind) {
+        case kOn:
+        case kAwaitOnMany:
+          target = op.ex;
+          cur_exec = op.ex;
+          exec_known = true;
+          break;
+        case kYield:
+          if (!exec_known) {
+            stop = true;  // unknowable from here on
+          } else {
+            target = cur_exec;  // -1: the library's inline executor, not a proxy
+          }
+          break;
+        case kAwaitSticky:
+          // resubmits to the coroutine's own executor only if it really suspended, which depends on the schedule
+          if (!exec_known || cur_exec == reject_ex) {
+            stop = true;
+          }
+          break;
+        case kAwaitFuture:
+        case kAwaitShared:
+        case kAwaitTask: {
+          const Obj& o = objs[static_cast<std::size_t>(op.objs[0])];
+          if (o.outcome != 0 && !op.guarded) {
+            stop = true;  // the coroutine ends here with the awaited failure
+          }
+          if (!(op.kind == kAwaitTask && op.task_is_coroutine)) {
+            exec_known = false;
+          }
+        } break;
+        case kAwaitMany:
+          exec_known = false;
+          break;
+        case kThrow:
+          stop = true;
+          break;
+        default:
+          break;
+      }
+      if (stop) {
+        return;
+      }
+      if (target == reject_ex) {
+        if (submitted >= reject_from) {
+          refused_at = static_cast<int>(i);
+        }
+        ++submitted;
+      } else if (target == 2) {
+        return;  // the stopped inline executor ends the coroutine first
+      }
+    }
+    if (refused_at < 0) {
+      return;
+    }
+    SIM_PROBE("refusal_predicted_from_the_script");
+    if (logs[0].size() > static_cast<std::size_t>(refused_at)) {
+      sim::Fail("REFUSAL_IGNORED",
+                "the only coroutine's op %d (%s) is submission #%d to %s, which refuses everything from #%d on, but the coroutine ran on past it (the executor it "
+                "named was not asked)",
+                refused_at, kOpNames[sc.ops[static_cast<std::size_t>(refused_at)].kind], reject_from, kExNames[reject_ex], reject_from);
+    }
   }
 
   std::uint32_t pool_workers = 1;
@@ -760,5 +841,5 @@ R Interp(Case* c, int k) {
 }  // namespace
 
 SIM_HARNESS("C13", "c13_coro", Case,
-            "RESUMED_EARLY WRONG_VALUE WRONG_RESULT WRONG_ORDER WRONG_EXECUTOR LOST_RESUME RAN_PAST_END AWAIT_LEFT_FUTURE_UNUSABLE FRAME_CORRUPT LOST DEADLOCK NO_PROGRESS "
+            "REFUSAL_IGNORED RESUMED_EARLY WRONG_VALUE WRONG_RESULT WRONG_ORDER WRONG_EXECUTOR LOST_RESUME RAN_PAST_END AWAIT_LEFT_FUTURE_UNUSABLE FRAME_CORRUPT LOST DEADLOCK NO_PROGRESS "
             "LEAK LEAK_OBJECT DOUBLE_DESTROY USE_AFTER_DESTROY GARBAGE_READ MOVED_FROM_READ JOB_LOST EXECUTOR_REF_LEAK CRASH:*")
